@@ -245,14 +245,17 @@ def run(ctx):
     r = vlib.rng(ctx.seed, "C01")
 
     # ---- programs --------------------------------------------------------------------------
-    n_gen = 150 if ctx.quick else 3000
+    n_gen = 100 if ctx.quick else 2000
     progs = load_corpus()
     n_corpus = len(progs)
     for i in range(n_gen):
         pr = vlib.rng(ctx.seed, f"C01/prog/{i}")
         src, feat = gen_progs.generate(pr)
         progs.append({"id": f"gen{i}", "src": src, "entry": "main", "feat": feat})
-    results, selftest = run_programs(ctx, progs, selftest=True)
+    import time
+    t_prog = time.time()
+    results, selftest = run_programs(ctx, progs, selftest=True, workers=12, chunk=8)
+    ctx.notes.append(f"compile phase {time.time() - t_prog:.0f}s")
     by_id = {p["id"]: p for p in progs}
     status = {}
     feats = {}
